@@ -1,5 +1,6 @@
 \* the design WITHOUT the comparison of the two key agreement keys: TLC must find the reflection counterexample
 CONSTANT EchoCheck = FALSE
+CONSTANT ParamsOfLast = FALSE
 INIT Init
 NEXT Next
 INVARIANTS FailClosed
